@@ -3,7 +3,6 @@ mod c02;
 mod c04;
 mod c07;
 mod c09;
-mod wire;
 mod c11;
 mod gen;
 
